@@ -7,6 +7,30 @@ HOOK_COMMITS = []
 
 # id -> (technique, level text, level note, design ref)
 CLAIMED = {
+ "C03": ("runtime monitor: socket zoo on each medium fed with arbitrary bytes, valid frames of every protocol, structured mutants (checksum-repaired), replies to the stack's own frames and the upstream fuzz seeds; catch_unwind + tx cap + watchdog, then an independent liveness probe",
+         "Exploration by runtime monitoring: ~10^5 (quick) / ~1.5*10^6 (thorough) sequences of 1..64 frames interleaved with time advances on Ethernet, raw-IP and IEEE 802.15.4 interfaces carrying TCP (listening/connecting/established), UDP, ICMP, raw, DNS and DHCPv4 sockets, multicast groups and both reassemblers. Every poll/poll_ingress_single/poll_egress/poll_at runs under catch_unwind with a 40 000-frames-per-poll cap and a 15 s watchdog; afterwards an ARP/NS + echo probe from an identity the fuzz traffic never used must be answered. Failing histories are minimised. Profiles chk (overflow checks on) and rel.",
+         "Trusted: the probe judge (independent parsers), the watchdog. Frames are built with smoltcp's own emitters where convenient - the oracle is 'no panic / returns / still answers', not frame correctness. A panic in poll_at is reported under its own prefix.",
+         "DESIGN.md §4 C03"),
+ "C09": ("runtime monitor: random socket programs with unique datagram ids; egress oracle = wire sequence per socket equals accepted sends (exactly once, in order, unmodified), ingress oracle = FIFO model of what may and must be in each receive buffer",
+         "Exploration by runtime monitoring: 130 000 (quick) / ~3*10^6 (thorough) random programs of bind/close/send/send_slice/send_with/recv/recv_slice/peek/peek_slice on 1..4 UDP, ICMP and raw sockets (IPv4/IPv6, metadata rings 1..8, payload rings 1..4096 forcing wrap-around padding) interleaved with polls, blocked-device windows, token caps, immediate/late/absent neighbor resolution and inbound datagrams (fragmented, broadcast, bad checksums, wrong MAC). Every datagram carries a unique id; independent reassembly of IPv4 fragments.",
+         "Trusted: harness/src/mon/c09.rs models, harness/src/sim/dgram.rs, harness/src/indep/x3. A datagram queued behind an unresolvable head of the same socket is not owed; among several matching UDP sockets any one may deliver.",
+         "DESIGN.md §4 C09"),
+ "C10": ("runtime monitor: independent frame validator (written from the RFCs) applied to every frame emitted by dedicated traffic scenarios on all three media, all MTU classes and checksum-offload settings, with garbage-prefilled transmit buffers",
+         "Exploration by runtime monitoring: six scenario families (TCP transfers, datagram sockets with resolved/unresolved neighbors, replies to valid and invalid input incl. ICMP errors, DHCP with a scripted server applying Configured/Deconfigured, DNS/mDNS, multicast joins) on Ethernet, raw IP and IEEE 802.15.4, MTUs from the protocol minimum upward, every ChecksumCapabilities setting; ~1.8*10^6 frames (quick) judged by validate_frame: length fields consistent with each other and the frame size, mandatory checksums, option lists terminated/padded, DHCP/DNS/NDISC/MLD structure, 6LoWPAN dispatch/IPHC/fragment rules, frame <= MTU, and the source-address rule with its DHCP/MLD/raw-socket exemptions. Fragments are also reassembled and judged as datagrams.",
+         "Trusted: harness/src/indep/x1/*.rs (validator and helper parsers; no call into smoltcp::wire), the scenario scripts in harness/src/sim/{traffic,scen}.rs. SHOULD-level rules (576-byte ICMPv4 limit, IGMP Router Alert) are not enforced.",
+         "DESIGN.md §4 C10"),
+ "C12": ("runtime monitor: independent IPv4 fragmenter/reassembler; egress parts reassemble everything the stack emits (single and back-to-back datagrams), ingress parts deliver every permutation with every single duplication of <= 4 fragments (sampled beyond, interleaved datagrams) to a fresh interface with a must-deliver rule from a range-set model",
+         "Exploration by runtime monitoring: ~5.5*10^5 cases quick: every fragment <= MTU, 8-aligned, consistent id/MF, each accepted datagram one complete byte-exact reassembly, no id sharing or byte interleaving; ingress: delivered == original or nothing, and delivered whenever the arrival order never needs more open ranges than ASSEMBLER_MAX_SEGMENT_COUNT, the size fits REASSEMBLY_BUFFER_SIZE and a slot is free. Both the default build and chk-big (32 ranges, 4 slots, 4096-byte buffer).",
+         "Trusted: harness/src/indep/x3/frag4.rs, the range-set model in harness/src/mon/c12.rs. Known finding: the single Fragmenter is overwritten by a second oversized datagram (known_findings.json).",
+         "DESIGN.md §4 C12"),
+ "C18": ("runtime monitor: the harness is the DHCP server/network (independent DHCP codec); event stream, poll_at and emitted messages judged against an upper bound of the lease computed from the delivered valid ACKs",
+         "Exploration by runtime monitoring: ~39 000 scripted histories (quick) with OFFER/ACK/NAK/other, stale or foreign xid/chaddr, missing server-id, bad masks, non-unicast yiaddr, lease/T1/T2 in {absent,0,1,equal,inverted,60,2^32-1}, duplicates, reordering, loss, unanswered ARP, time advances over several leases, retry configurations and max-lease settings, polled by poll_at plus random early and late polls. Configured only after a valid ACK delivered after a transmission with the matching xid; Deconfigured by the first poll at or after E = max over valid ACKs of (delivery + min(lease,max_lease)); poll_at <= E while configured; renew before rebind before expiry; bounded solicitation spacing.",
+         "Trusted: harness/src/indep/x2/dhcp.rs, harness/src/sim/dhcp_net.rs. 'Valid ACK' is judged permissively (weakens the oracle only). Runs without guaranteed neighbor resolution report expiry problems under an ':arp-unreliable' suffix (recorded known finding).",
+         "DESIGN.md §4 C18"),
+ "C19": ("runtime monitor: the harness answers every DNS query (independent DNS codec with loop-safe decompression) with responses that are valid or wrong in exactly one respect, truncated, compressed in hostile ways or CNAME-chained; results, timing and termination judged",
+         "Exploration by runtime monitoring: 40 000 cases quick (resolve / wrong-in-one-respect / fuzz / names): a query may complete with addresses only if a delivered response matched server, port, transaction id, QR and question, and the addresses are records on the CNAME chain of the queried name; every started query ends within servers x 25 s of virtual time under poll_at-driven polling; retransmission spacing non-decreasing and <= 10 s, next server not before 10 s; each case runs under a 30 s watchdog for non-returning calls. chk-big adds 3 servers / 4 results in the thorough tier.",
+         "Trusted: harness/src/indep/x2/dns.rs, harness/src/sim/dns_net.rs. Liveness restated as bounded termination in virtual time.",
+         "DESIGN.md §4 C19"),
  "C20": ("runtime monitor: two IEEE 802.15.4 hosts + an independent RFC 4944/6282 codec (802.15.4 MAC, IPHC, NHC, FRAG1/FRAGN, reassembler); frame-level and end-to-end comparison against independently constructed datagrams, fragment permutations, indep-built inbound frames",
          "Exploration by runtime monitoring: five parts (emit: UDP/ICMPv6 over the address-class x port-class x hop-limit x payload grid, compared on the link with the datagram an independent codec constructs and with a Medium::Ip twin, and end to end at B incl. a raw socket; tcp: transfers over 6LoWPAN; perm: every permutation with one duplication of <= 4 fragments (sampled beyond) with a must-deliver rule for trackable orders; recv: frames built by the independent compressor incl. context-based and elided-checksum forms; b2b: datagrams queued back to back). ~1.4*10^5 cases quick, ~10x thorough.",
          "Trusted: harness/src/indep/{ieee802154,lowpan,udp6,icmp6}.rs written from the RFCs, the bounded range-tracker model for 'trackable order'. Unicast A->B uses extended addresses (neighbor discovery cannot learn short ones). Known findings: fragmenter overwritten while busy, elided UDP checksum not recomputed, MLD report panic on 802.15.4 (known_findings.json).",
@@ -36,7 +60,7 @@ CLAIMED = {
          "Trusted: the applicability predicates in harness/src/mon/c07/tables.rs (taken from the accessors' documentation), the watchdog (15 s per call: 10^7 x the normal cost).",
          "DESIGN.md §4 C07"),
  "C08": ("runtime monitor: independent RFC 1071 reference vs. checksum::data/combine/pseudo_header and the fill/verify helpers of IPv4, UDP, TCP, ICMPv4, ICMPv6 over all lengths and alignments; emitted-valid and enforced parts are judged by the frame validator and corruption drivers listed in the evidence parts",
-         "Exploration by runtime monitoring: (a) every length 0..2048 (thorough 0..65535) at every start alignment 0..7 with random / all-zero / all-0xFF / single-non-zero-byte contents, combine over a boundary grid (thorough: all 2^32 pairs), pseudo headers v4/v6, fill_checksum followed by reference verification, verify_checksum against reference on checksum+-k and single bit flips, the UDP zero rule. Parts (b) emitted-valid and (c) enforced are separate parts of this monitor when present in the evidence file.",
+         "Exploration by runtime monitoring: (a) every length 0..2048 (thorough 0..65535) at every start alignment 0..7 with random / all-zero / all-0xFF / single-non-zero-byte contents, combine over a boundary grid (thorough: all 2^32 pairs), pseudo headers v4/v6, fill_checksum followed by reference verification, verify_checksum against reference on checksum+-k and single bit flips, the UDP zero rule. (b) emitted valid: every IPv4 header / ICMPv4 / ICMPv6 / UDP / TCP checksum of every frame emitted by v4/v6 traffic scenarios verifies under the independent implementation for each offload setting with tx checksumming on (1.2*10^6 frames quick). (c) enforced: valid packets to live sockets (echo, UDP, TCP SYN/data, fragments, DHCP OFFER/ACK, DNS response, ICMP socket) with every single bit and sampled double bits of the checksummed region flipped (6*10^6 corrupted packets quick): if the reference says the packet no longer verifies it must emit no frame and change no observable socket quantity; accepted again with rx checksumming off.",
          "Trusted: the reference implementation in harness/src/mon/c08a.rs and harness/src/indep/cksum.rs (u64 accumulator over big-endian words, fold, complement).",
          "DESIGN.md §4 C08"),
  "C01": ("runtime monitor: two real endpoints over a seeded faulty link, offset-keyed stream content compared at every recv (history + executable model)",
